@@ -6,8 +6,10 @@ CONSTANTS
   Header = "first"
   Merge = "grid"
   Sep = "each"
+  Dedup = "none"
   MaxSpecial = 2
   FullCells = 4
+  MaxRepeat = 4
 INVARIANTS TypeOK RoundTrip HeadingLevelOK
 PROPERTIES PrefixStable Terminates
 CONSTRAINT EmitCase
